@@ -13,7 +13,11 @@ static WORLD: OnceLock<&'static SimWorld> = OnceLock::new();
 static STDERR_MEMFD: AtomicI32 = AtomicI32::new(-1);
 static REPORTED: AtomicBool = AtomicBool::new(false);
 
+/// Wall-clock enters only here: a child that does not report in time is killed and the run
+/// counts as stalled (a discarded content or a harness error, never a verdict).
 pub const WATCHDOG: Duration = Duration::from_secs(60);
+/// Limit for reference runs, which pre-screen contents the pure formatter chokes on.
+pub const PRESCREEN_WATCHDOG: Duration = Duration::from_secs(8);
 
 pub fn world() -> &'static SimWorld {
     WORLD.get().expect("world installed")
@@ -132,6 +136,36 @@ fn child_main(sc: &Scenario, fd: i32) -> ! {
 
 /// Executes the scenario in a forked child and returns what it reported.
 pub fn run_scenario(sc: &Scenario) -> RunResult {
+    run_scenario_within(sc, WATCHDOG)
+}
+
+pub fn run_reference(sc: &Scenario) -> RunResult {
+    let ms = std::env::var("VERIF_PRESCREEN_MS")
+        .ok()
+        .and_then(|s| s.parse::<u64>().ok())
+        .map(Duration::from_millis)
+        .unwrap_or(PRESCREEN_WATCHDOG);
+    run_scenario_within(sc, ms)
+}
+
+pub fn run_scenario_within(sc: &Scenario, watchdog: Duration) -> RunResult {
+    let t = Instant::now();
+    let mut r = run_scenario_inner(sc, watchdog);
+    r.wall_ms = t.elapsed().as_millis() as u64;
+    r
+}
+
+/// The pre-screen's limit on how long the fault-free reference run of a content may take
+/// before the content is replaced (slow contents are the pure formatter's business and would
+/// only burn the budget here).
+pub fn prescreen_slow_ms() -> u64 {
+    std::env::var("VERIF_PRESCREEN_SLOW_MS")
+        .ok()
+        .and_then(|s| s.parse::<u64>().ok())
+        .unwrap_or(400)
+}
+
+fn run_scenario_inner(sc: &Scenario, watchdog: Duration) -> RunResult {
     let mut fds = [0i32; 2];
     // SAFETY: pipe/fork/read/waitpid on descriptors and pids this process owns. The calling
     // process is single-threaded by construction (see main.rs), so fork is safe.
@@ -155,7 +189,7 @@ pub fn run_scenario(sc: &Scenario) -> RunResult {
         let mut buf = vec![0u8; 256 * 1024];
         let mut timed_out = false;
         loop {
-            let left = WATCHDOG.saturating_sub(start.elapsed());
+            let left = watchdog.saturating_sub(start.elapsed());
             if left.is_zero() {
                 timed_out = true;
                 break;
